@@ -69,6 +69,9 @@ class Harness(cm.BaseB):
         for dev in ("EvoWorklist", "FluentWorklist"):
             for m in [50, 4.8, 33.3, 950, 0.5, 7, 0.375, 166.667, 33.335, 2000 / 3]:
                 out.append({"kind": "tr", "dev": dev, "m": m})
+        # the deprecated alias and other ways of handing the constructor its arguments
+        for dev in ("Worklist", "Worklist:pos", "Worklist:mixed", "EvoWorklist:pos", "FluentWorklist:pos", "FluentWorklist:mixed"):
+            out.append({"kind": "tr", "dev": dev, "m": 50})
         out.append({"kind": "rd"})
         out.append({"kind": "trseq"})
         out.append({"kind": "trmax"})
@@ -213,7 +216,7 @@ class Harness(cm.BaseB):
         src = rt.Labware("S", 2, 2, min_volume=0, max_volume=1e9, initial_volumes=1e8)
         dst = rt.Labware("D", 2, 2, min_volume=0, max_volume=1e9)
         if wl is None:
-            wl = getattr(rt, case["dev"])(max_volume=m, auto_split=case["auto_split"])
+            wl = cm.make_worklist(case["dev"], max_volume=m, auto_split=case["auto_split"])
         V = []
         exc = None
         try:
